@@ -92,6 +92,8 @@ def mabs(x):
 
 
 def run(chk):
+    global NP, NX
+    NP, NX = (3, 3) if chk.tier == "thorough" else (2, 2)
     src = load()
     chk.rule_text = "stored == later . earlier on the combined index; error == |later||d earlier| + |d later||earlier|; bookkeeping"
     fp = src.func("ekobox.utils.ekos_product")
